@@ -18,7 +18,7 @@ type C07Case struct {
 }
 
 func genAloneRCase(r *sim.Rng, tier string) *RCase {
-	c := &RCase{Src: genSrcPlan(r), Reads: genReads(r), PostEOF: genPostEOF(r)}
+	c := &RCase{Src: genSrcPlanZ(r), Reads: genReads(r), PostEOF: genPostEOF(r)}
 	c.RDict = sim.Pick(r, []int{4096, 4096, 8192, 1 << 16, 1 << 20})
 	k := r.Weighted([]int{6, 3, 1})
 	if k == 1 && !liblzma.Available {
